@@ -106,7 +106,10 @@ pub fn easing_of(id: u8) -> Easing {
         27 => Easing::OutBack,
         28 => Easing::InOutBack,
         29 => Easing::Custom(Box::new(StepsJumpEnd(4))),
-        _ => Easing::Custom(Box::new(mina_core::easing::CubicBezierEasing::new(0.3, 0.2, 0.6, 0.9))),
+        // (control points whose x coordinates lie outside [0, 1]: the library evaluates the curve's
+        // y polynomial at the parameter and never looks at x, so this is a valid easing with
+        // calc(0) = 0 and calc(1) = 1 - and a trap for a CSS-style range check)
+        _ => Easing::Custom(Box::new(mina_core::easing::CubicBezierEasing::new(-0.3, 0.2, 1.4, 0.9))),
     }
 }
 
